@@ -25,7 +25,9 @@ Property clause → theorem  (model: `Comdex/Model/Liquidation.lean`, both gener
       `C09.two_sweeps_if_one_shift`, `C09.unsafe_processed_is_seized` (a position handed to the step IS seized when
       liquidation and the auction type are enabled, prices active, no emergency control), `C09.v2_repaired_witness_seized`.
 * "seizure moves exactly the recorded collateral into auction custody and opens exactly one auction for it"
-    → `C09.seize_moves_exactly_collateral`, `C09.seize_opens_one_auction`.
+    → `C09.seize_moves_exactly_collateral`, `C09.seize_opens_one_auction` (vault seizures, both generations);
+      FALSE for the generation-2 borrow SWEEP as it is: `C09.v2_borrow_sweep_leak_counterexample` (D6: the borrow loop is not
+      wrapped, a failing hand-over leaves the flag and the custody move behind, without locked vault or auction).
 -/
 namespace Comdex.C09
 open Comdex Comdex.Liquidation
@@ -250,6 +252,30 @@ theorem v2_vault_starved_counterexample :
 theorem v2_repaired_witness_seized :
     ∃ w, iterV2 true 3 witWorld = some w ∧ w.vaults.map (·.id) = [1, 2] ∧ w.newAuctions.map (·.amount) = [800251] := by
   exact ⟨_, rfl, by decide, by decide⟩
+
+
+/-! ### generation 2 as it is: the borrow loop is not wrapped (D6) -/
+
+def leakEnv : Env :=
+  { assets := [{ id := 6, decimals := 1000000, price := some 1400000 }, { id := 7, decimals := 1000000, price := some 2000000 }]
+    apps := [{ id := 3, wl2 := true, dutch2 := false }] }
+
+def leakWorld : World :=
+  { borrows := [{ id := 1, app := 3, pool := 1, assetIn := 6, assetOut := 7, amountIn := 100000000, debt := 65000000, bridge := .same,
+                  liquidated := false, lt := 750000000000000000, ltFirst := 850000000000000000, ltSecond := 750000000000000000 }]
+    poolBal := [(6, 1000000000)], auctionBal := [(6, 0)] }
+
+/-- **A seizure without an auction** (generation-2 sweep as it is): the lend app is whitelisted with no auction type
+activated; the unsafe borrow is flagged and its whole collateral moved to the auction account, then `CreateLockedVault`
+fails and the hook returns the error — the writes stay, no locked vault and no auction exist. Inside a transaction
+(`msgLiquidateV2`) the same step is rejected as a whole. Replayed on the real code by the harness. -/
+theorem v2_borrow_sweep_leak_counterexample :
+    borrowUnsafe leakEnv (leakWorld.borrows.getD 0 default) = true ∧
+    (∃ w', (blockV2 false leakEnv 5 leakWorld).world? = some w' ∧
+      w'.borrows.map (·.liquidated) = [true] ∧ w'.auctionBal.get 6 = 100000000 ∧ w'.poolBal.get 6 = 900000000 ∧
+      w'.newAuctions = [] ∧ w'.newLocked = [] ∧ w'.auctionId = 0) ∧
+    msgLiquidateV2 leakEnv 1 1 leakWorld = none := by
+  refine ⟨by decide, ⟨_, rfl, by decide, by decide, by decide, by decide, by decide, by decide⟩, by decide⟩
 
 /-! ## seizure effect -/
 
